@@ -25,7 +25,7 @@ package interp
 // genGlobalVarDecl: a variable is emitted only when all its dependencies have been emitted.
 //@ pred inBatch(d, nodes0): exists(m, 0, len(nodes0), nodes0[m] == d)
 //@ func genGlobalVarDecl(nodes, sc) (r, err)
-//@   props C15
+//@   props C15 C11
 //@   opt safety = off
 //@   opt loops = havoc
 //@   opt opaque-calls = getVarDependencies, equalNodes, wireChild, cfgErrorf
@@ -36,6 +36,7 @@ package interp
 //@   invariant batch-marks-exactly-the-prefix: forallR(x, (has(batch, x) && batch[x]) == exists(m, 0, i, nodes[m] == x))
 //@   loop 5 index j
 //@   invariant all-seen-batch-members-inited: canInit == forall(k, 0, j, inBatch(deps[n][k], old(nodes)) ==> has(inited, deps[n][k]) && inited[deps[n][k]])
+//@   after every-dependency-was-examined: canInit == forall(k, 0, len(deps[n]), inBatch(deps[n][k], old(nodes)) ==> has(inited, deps[n][k]) && inited[deps[n][k]])
 
 // importSrc (C16, C15): evaluated at most once per import path, the cycle check precedes every
 // evaluation step, success registers the package; relative imports of main resolve against ".".
